@@ -168,3 +168,57 @@ def call_before(f, bb_a, bb_b):
 
 def dominates_edge(f, edges, bb):
     return f.must_cross([bb], cut_edges=edges)
+
+
+# -- integer / value comparisons (MIR BinaryOp) ----------------------------------------------
+
+_NEG = {"Eq": "Ne", "Ne": "Eq", "Lt": "Ge", "Ge": "Lt", "Gt": "Le", "Le": "Gt"}
+_SWAP = {"Eq": "Eq", "Ne": "Ne", "Lt": "Gt", "Gt": "Lt", "Le": "Ge", "Ge": "Le"}
+_SYM = {"Eq": "==", "Ne": "!=", "Lt": "<", "Le": "<=", "Gt": ">", "Ge": ">="}
+
+
+def cmp_sites(f):
+    """all `x = BinaryOp(cmp, a, b)` statements: list of dict(bb, local, op, a, b, at)."""
+    out = []
+    for bi, b in enumerate(f.blocks):
+        for s in b["s"]:
+            if s["k"] == "assign" and s["rv"][0] == "bin" and s["rv"][1] in _NEG:
+                out.append({"bb": bi, "local": s["p"][0], "op": s["rv"][1], "a": s["rv"][2], "b": s["rv"][3],
+                            "at": s["sp"]["at"]})
+    return out
+
+
+def cmp_reject_relation(f, site, targets=None, start=0, per_iteration=None):
+    """For a comparison site that is branched on with one rejecting edge, return
+    (ok, how, rel) where rel is the operator such that the function REJECTS iff `a rel b`.
+    per_iteration: a loop dict -> the pass edge must lie on every iteration instead of dominating
+    the accepting exits from the entry."""
+    if targets is None:
+        targets = f.ok_exit_blocks()
+    chk = f.bool_checks_of_local(site["local"])
+    for c in chk:
+        t_reach = any(f.can_reach(t, targets) for (_, t) in c["true_edges"])
+        f_reach = any(f.can_reach(t, targets) for (_, t) in c["false_edges"])
+        if t_reach == f_reach:
+            continue
+        rejecting_truth = not t_reach
+        pass_edges = c["false_edges"] if rejecting_truth else c["true_edges"]
+        if per_iteration is not None:
+            L = per_iteration
+            dom = all(not f.can_reach(s, [L["header"]], cut_edges=pass_edges) for s in L["some"])
+            where = "on every iteration of the loop at %s" % ir.line_of(f.term(L["header"])["sp"]["at"])
+        else:
+            dom = f.must_cross(targets, cut_edges=pass_edges, start=start) and f.can_reach(start, targets)
+            where = "dominating every accepting exit"
+        if not dom:
+            return False, "the branch at %s does not lie %s" % (ir.line_of(c["at"]), where), None
+        rel = site["op"] if rejecting_truth else _NEG[site["op"]]
+        return True, "branch at %s %s; rejects iff lhs %s rhs" % (ir.line_of(c["at"]), where, _SYM[rel]), rel
+    return False, "comparison at %s is not branched on with a rejecting edge" % ir.line_of(site["at"]), None
+
+
+def rel_matches(rel, want, swapped):
+    """does `a rel b` equal the wanted relation (given whether operands are swapped wrt the rule)?"""
+    if rel is None:
+        return False
+    return (_SWAP[rel] if swapped else rel) == want
